@@ -339,6 +339,51 @@ def restore_with_live_reader(ck):
             "cases": [line], "how_to_replay": "bin/check C05"}, concrete=True)
 
 
+def c16_probe(ck):
+    """REPORTED, NOT FAILED (option VERIF_C05_C16PROBE=1) — property C16 with the mechanics of D14: configurations rev 0->1 (before a
+    snapshot) and 1->2 ... ->n (in the un-snapshotted tail behind ~3*fill entries); SIGKILL; restart without the Barrier; POST /config
+    naming the STALE revision 1 every 200 us until answered; when the node has replayed its log: GET /config."""
+    reps = int(os.environ.get("VERIF_C05_PROBE_REPS", "3"))
+    lines, meta = [], []
+    for rep in range(reps):
+        for n in (3, 4, 5):
+            for fill in (0, 50, 150, 300):
+                for mode in (1, 2):
+                    for apply_delay in (0, 200):
+                        if apply_delay and fill > 50:
+                            continue
+                        steps = ["N:0", "FC:1", "C:0", "C:1", "C:2", "M:0:2", "S"] + (["R:%d:none:0:0" % fill] if fill else [])
+                        steps += ["FC:%d" % i for i in range(2, n + 1)] + ["RC:%d:%d:%d" % (mode, apply_delay, n)]
+                        lines.append("sys c16-n%d-f%d-m%d-a%d-r%d " % (n, fill, mode, apply_delay, rep) + " ".join(steps))
+                        meta.append((n, fill, mode, apply_delay))
+    res, out, strays = run_sysdrv(lines, "c05-c16", 4, timeout=1500)
+    if res is None:
+        print("REPORT property=C16 probe=stale-config driver-failed")
+        ck.notes["c16_probe"] = {"error": out[-2000:]}
+        return
+    table, examples, total = {}, [], {}
+    for line, m, r in zip(lines, meta, res):
+        p = r.get("config_probe")
+        if not p or r["errors"]:
+            o = "harness:" + "; ".join(r["errors"])[:80]
+        elif p["stale_post_status"] == 200:
+            o = "ACCEPTED -> revision %s operator %s (expected %d op%d)" % (p["revision_in_force"], p["operator_in_force"], m[0], m[0])
+        else:
+            o = "refused %d -> revision %s operator %s" % (p["stale_post_status"], p["revision_in_force"], p["operator_in_force"])
+        key = "entries_after_snapshot~%d mode=%d fsm_apply_delay_us=%d" % (3 * m[1], m[2], m[3])
+        table.setdefault(key, {}).setdefault(o.split(" ->")[0] if False else o if o.startswith("harness") else ("ACCEPTED" if o.startswith("ACCEPTED") else "refused"), 0)
+        kk = o if o.startswith("harness") else ("ACCEPTED" if o.startswith("ACCEPTED") else "refused")
+        table[key][kk] += 1
+        total[o] = total.get(o, 0) + 1
+        if o.startswith("ACCEPTED") and len(examples) < 3:
+            examples.append({"case": line, "probe": p})
+    ck.notes["c16_probe"] = {"scenarios": len(lines), "by_shape": table, "outcomes": total, "examples": examples, "note": "reported only"}
+    for k in sorted(table):
+        print("REPORT property=C16 probe=stale-config %s -> %s" % (k, table[k]))
+    for k in sorted(total):
+        print("REPORT property=C16 probe=stale-config TOTAL %d x %s" % (total[k], k))
+
+
 def run(ck, replay):
     quick = ck.tier == "quick"
     ck.level = "proof"
@@ -485,6 +530,8 @@ def run(ck, replay):
         line, harness, r = harness_all[0]
         ck.violation("harness:sysdrv", {"what": "sysdrv could not complete %d scenario(s); the property is not shown to hold for them" % len(harness_all),
                                         "obligation": "tie sysdrv (package main)", "output": "\n".join(harness)[:6000], "events": r["events"], "cases": [line]}, concrete=False)
+    if os.environ.get("VERIF_C05_C16PROBE") == "1" and not replay:
+        c16_probe(ck)
     if not ok:
         ck.violation("proof-broken", {"what": "proof obligations not discharged", "errors": ck.proof_errors,
                                       "obligation": ck.proof_result.get("broken_at", "Properties/C05.v"), "coq_output": ck.proof_result["output_tail"]}, concrete=False)
